@@ -34,6 +34,7 @@ COMPILER_REPLAYS = {
     "u_hirorder": ["replay/c13/hir_order.sh"],
     "u_goident": ["replay/c19/predeclared.sh"],
     "u_reserved": ["replay/c19/builtin_name.sh"],
+    "u_gensym": ["replay/c19/gensym_capture.sh"],
     "u_patlit": ["replay/c03/run.sh"],
     "u_annot": ["replay/c03/annotations.sh"],
     "u_binop": ["replay/c09/short_circuit.sh"],
